@@ -89,7 +89,7 @@ pub enum Rec {
     /// The endpoint read this datagram from its inbox during call `call`.
     Consumed { call: u64, ep: usize, src_addr: SocketAddr, src: Option<usize>, bytes: Rc<Vec<u8>> },
     /// Application-visible event returned by step(); `peer` is the client endpoint for servers.
-    Event { call: u64, t_ns: u64, local_ms: u64, ep: usize, peer: Option<usize>, peer_addr: Option<SocketAddr>, ev: AppEvent },
+    Event { call: u64, t_ns: u64, local_ms: u64, local_ns: u64, ep: usize, peer: Option<usize>, peer_addr: Option<SocketAddr>, ev: AppEvent },
     /// Internal trace event (hook H6) of half connection `hc`.
     Trace { call: u64, ep: usize, hc: u64, ev: uv::trace::Event },
     /// State snapshot (hook H5) after the call.
@@ -968,7 +968,7 @@ impl<'a> World<'a> {
                 }
             }
             let peer = peer_addr.and_then(|a| self.addrs.iter().position(|x| *x == a));
-            self.emit(Rec::Event { call, t_ns: self.now_ns, local_ms, ep, peer, peer_addr, ev }, oracles);
+            self.emit(Rec::Event { call, t_ns: self.now_ns, local_ms, local_ns, ep, peer, peer_addr, ev }, oracles);
         }
         let probe = self.probe(ep);
         let heap_live = alloc::live(ep + 1);
